@@ -20,6 +20,7 @@ func init() {
 				"R1.config":   "sources of RootCAs / GetClientCertificate; forbidden fields never stored",
 				"R2.insecure": "no insecure credentials / options outside tests",
 				"R3.wiring":   "signer constructor and connection helper wire the TLS credentials through",
+				"R4.failover": "a rejected endpoint is a failed endpoint and the next one is tried: the signer's ordered fail-over over the whole configured endpoint list, written only by the constructor (rules R1-R3 of C17, imported)",
 			},
 		},
 		Run: runC18,
@@ -85,6 +86,10 @@ func insecureUses(w *World, fns []*ssa.Function) []insecureSite {
 func runC18(c *Ctx) {
 	w := c.w
 	tablesC18(c)
+	// "... are treated as failed endpoints, so a later genuine endpoint is still used": the ordered fail-over rules of
+	// the signer (C17 R1-R3) are imported
+	fo := map[string]string{"R1.order": "R4.failover", "R1.ctor": "R4.failover", "R1.request": "R4.failover", "R2.nonnil": "R4.failover", "R3.gate": "R4.failover"}
+	c.WithRules(fo, func() { runC17Core(c, false) })
 	tc := w.Func("tlsutils", "TLSClientConfiguration")
 	if tc == nil {
 		c.Unresolved("R1.config", "tlsutils.TLSClientConfiguration")
